@@ -10,9 +10,17 @@ ids=${*:-$(ls /verif/seeded)}
 for id in $ids; do
   prop=$(python3 -c "import json;print(json.load(open('/verif/seeded/$id/meta.json'))['property'])")
   (cd $wt && git checkout -q -- . && git clean -fdq && git apply /verif/seeded/$id/patch.diff) || { echo "$id patch does not apply"; continue; }
-  s=$(date +%s)
-  out=$(cd $snap && VERIF_CACHE_DIR=/verif/.work/cache-swapfsm VERIF_REPO=$wt ./check $prop 2>&1); rc=$?
-  e=$(date +%s)
-  echo "$id property=$prop rc=$rc violations=$(echo "$out" | grep -c '^VIOLATION') wall=$((e-s))s $(echo "$out" | grep -m1 'signature:' | cut -c1-140)"
+  # the checks that were found to catch it (meta.checks_run), the seed's own property first
+  props=$(python3 -c "import json;m=json.load(open('/verif/seeded/$id/meta.json'));print(' '.join(dict.fromkeys([m['property']]+m.get('checks_run','').split())))")
+  caught=no
+  for prop in $props; do
+    s=$(date +%s)
+    out=$(cd $snap && VERIF_CACHE_DIR=/verif/.work/cache-swapfsm VERIF_REPO=$wt ./check $prop 2>&1); rc=$?
+    e=$(date +%s)
+    echo "$id check=$prop rc=$rc violations=$(echo "$out" | grep -c '^VIOLATION') wall=$((e-s))s $(echo "$out" | grep -m1 'signature:' | cut -c1-140)"
+    [ $rc -eq 2 ] && echo "$out" | tail -3 | cut -c1-300
+    [ $rc -eq 1 ] && { caught=yes; break; }
+  done
+  echo "$id caught=$caught"
 done
 (cd $wt && git checkout -q -- .); git -C /repo worktree remove --force $wt; rm -rf $snap
